@@ -108,7 +108,7 @@ func runC17(w *World, r *Report, tier string) {
 			for e := range nilEdges {
 				walkPaths(Loc{e.From.Succs[e.Succ], 0}, nil, nil, 100, func(path []ssa.Instruction, end pathEnd) {
 					if rt, ok := path[len(path)-1].(*ssa.Return); ok {
-						if b, isC := boolConst(rvI(rt.Results[0], len(path)-1)); !isC || !b {
+						if b, isC := boolConst(rvI(rres(path, rt)[0], len(path)-1)); !isC || !b {
 							okTrue = false
 						}
 					}
@@ -286,14 +286,14 @@ func runC17(w *World, r *Report, tier string) {
 				if !isRet {
 					return
 				}
-				res := rvI(rt.Results[0], len(path)-1)
+				res := rvI(rres(path, rt)[0], len(path)-1)
 				if isNilConst(res) || pathAsserts(path, func(c ssa.Value, truth bool) bool { return assertsNil(c, truth, res) }) {
 					if countOn(path, func(in ssa.Instruction) bool { return in == ssa.Instruction(st) }) > 0 {
 						ok, detail = false, "Pop removes an element and returns nil"
 					}
 					return
 				}
-				nfv := w.nfOn(rt.Results[0], path)
+				nfv := w.nfOn(rres(path, rt)[0], path)
 				isPeek := strings.HasPrefix(nfv, "stanza.UnAckQueue.Peek(")
 				isHead := nfv == fmt.Sprintf("index(%s,0)", U(fn))
 				if !isPeek && !isHead {
@@ -486,11 +486,11 @@ func runC17(w *World, r *Report, tier string) {
 			if !isRet {
 				return
 			}
-			if isNilConst(rvI(rt.Results[0], len(path)-1)) {
+			if isNilConst(rvI(rres(path, rt)[0], len(path)-1)) {
 				return
 			}
 			nNon++
-			if got := w.nfOn(rt.Results[0], path); got != fmt.Sprintf("index(%s,0)", U(fn)) {
+			if got := w.nfOn(rres(path, rt)[0], path); got != fmt.Sprintf("index(%s,0)", U(fn)) {
 				ok, detail = false, "Peek returns "+got+", not the head Uslice[0]"
 			}
 			viaNonEmpty := false
@@ -513,7 +513,7 @@ func runC17(w *World, r *Report, tier string) {
 			if !isRet {
 				return
 			}
-			res := rvI(rt.Results[0], len(path)-1)
+			res := rvI(rres(path, rt)[0], len(path)-1)
 			if _, isC := boolConst(res); isC {
 				return
 			}
